@@ -41,6 +41,12 @@ theorem findFut_mem {s : Sys} {f : Nat} {fu : Fut} (h : findFut s f = some fu) :
   have h2 := List.find?_some h
   exact ⟨h1, by simpa using h2⟩
 
+theorem fresh_fut {s : Sys} {i : Nat} (h : fresh s i = true) : ∀ x ∈ s.futs, x.id ≠ i := by
+  intro x hx hid
+  simp only [fresh, findFut, Bool.and_eq_true, Option.isNone_iff_eq_none,
+    List.find?_eq_none] at h
+  exact h.1 x hx (by simp [hid])
+
 theorem eraseP_guard_length {s : Sys} {g : Nat} {gu : Guard} (h : findGuard s g = some gu) :
     (s.guards.eraseP (·.id == g)).length + 1 = s.guards.length := by
   have hm := findGuard_mem h
